@@ -240,6 +240,19 @@ Print Assumptions C13_supercard_end_to_end.
    which decimal is printed (the amount as written) and which way round a booking of zero is
    written (charge_directive / change_directive). *)
 
+(* the executable form refines the relation: the transaction prescribed for a row fact books it
+   (so every X_statement_output is the journal of transactions that `books` the statement's row
+   facts, described by the rows' texts) *)
+Theorem C13_change_directive_books : forall acct f text, acct <> tbd_account ->
+  exists t, change_directive acct f text = DTxn t /\ books acct tbd_account f t /\ t_desc t = build_desc text.
+Proof. exact change_directive_books. Qed.
+Print Assumptions C13_change_directive_books.
+
+Theorem C13_charge_directive_books : forall acct f text, acct <> tbd_account ->
+  exists t, charge_directive acct f text = DTxn t /\ books acct tbd_account f t /\ t_desc t = build_desc text.
+Proof. exact charge_directive_books. Qed.
+Print Assumptions C13_charge_directive_books.
+
 (* swisscard2: a header record, then well-formed rows; per row the charge Betrag booked from the
    account to Expenses:TBD *)
 Theorem C13_swisscard2_stdout : forall flag acct recs,
